@@ -396,10 +396,15 @@ def analyse(rep):
             ok = isinstance(v, ast.Subscript) and src(v.value) == numvar and isinstance(v.slice, ast.Slice)
             rep.check(ok, 'C16.value', FILE, 'info', src(n), n.lineno,
                       'the value decoded for an identifier is %s, not the characters of the element string: decoding and re-encoding no longer agree' % src(v)[:60])
-    rep.check(valname is not None and src(decs[0].args[0]) == "%s['format']" % ri_ and src(decs[0].args[1]) == "%s['type']" % ri_,
+    from ..match import resolve_locals
+
+    def rl(fn_, e_):
+        # the function's first parameter is renamed by resolve_locals; format/type expressions do not mention it
+        return src(resolve_locals(fn_, e_))
+    rep.check(valname is not None and rl(inf, decs[0].args[0]) == "%s['format']" % ri_ and rl(inf, decs[0].args[1]) == "%s['type']" % ri_,
               'C16.value', FILE, 'info', src(decs[0]) if decs else '_decode_value(...)', inf.lineno, 'info() does not decode the value with the format and type of its identifier')
     encs = [n for n in ast.walk(encf) if isinstance(n, ast.Call) and src(n.func) == '_encode_value']
-    rep.check(len(encs) == 1 and len(encs[0].args) == 3 and src(encs[0].args[0]) == "%s['format']" % re_ and src(encs[0].args[1]) == "%s['type']" % re_
+    rep.check(len(encs) == 1 and len(encs[0].args) == 3 and rl(encf, encs[0].args[0]) == "%s['format']" % re_ and rl(encf, encs[0].args[1]) == "%s['type']" % re_
               and isinstance(encs[0].args[2], ast.Name),
               'C16.value', FILE, 'encode', src(encs[0]) if encs else '_encode_value(...)', encf.lineno, 'encode() does not encode the value with the format and type of its identifier')
     # --- validate = encode(info(x, sep), sep) in the catch-all
